@@ -150,7 +150,7 @@ class Stats:
         self.solver_time = 0.0
         self.paths = 0
         self.paths_done = 0
-        self.asserts = {}       # label -> [checked, discharged]
+        self.asserts = {}       # label -> [checked, discharged, nontrivial]
         self.reached = {}       # label -> count
         self.funcs = set()
         self.stubs = set()
@@ -159,6 +159,31 @@ class Stats:
         self.max_unwind = 0
         self.nontrivial_paths = 0
         self.samples = []
+        self.merged_ifs = 0
+        self.merged_calls = 0
+        self.procs = 1
+
+    def to_dict(self):
+        d = dict(self.__dict__)
+        d["funcs"] = sorted(self.funcs)
+        d["stubs"] = sorted(self.stubs)
+        return d
+
+    def merge(self, d):
+        for k in ("queries", "solver_time", "paths", "paths_done", "unknown", "nontrivial_paths", "merged_ifs", "merged_calls", "procs"):
+            setattr(self, k, getattr(self, k) + d.get(k, 0))
+        for k, v in d["asserts"].items():
+            r = self.asserts.setdefault(k, [0, 0, 0])
+            for i in range(3):
+                r[i] += v[i]
+        for k, v in d["reached"].items():
+            self.reached[k] = self.reached.get(k, 0) + v
+        self.funcs.update(d["funcs"])
+        self.stubs.update(d["stubs"])
+        self.unwind_exceeded.extend(d["unwind_exceeded"])
+        self.max_unwind = max(self.max_unwind, d["max_unwind"])
+        if len(self.samples) < 3:
+            self.samples.extend(d["samples"][: 3 - len(self.samples)])
 
 
 class Executor:
@@ -170,7 +195,9 @@ class Executor:
         self.maxlen = maxlen
         self.cfg = cfg or {}
         self.solver = z3.Solver()
-        self.solver.set("timeout", timeout_ms)
+        # resource limit instead of a wall-clock timeout: deterministic, and no timer threads (the process forks)
+        self.solver.set("rlimit", int(self.cfg.get("rlimit", 400000000)))
+        self._sstack = []
         self.stats = Stats()
         self.violations = []
         self.objctr = 0
@@ -217,35 +244,50 @@ class Executor:
         return ABase(nm, fn)
 
     # ------------------------------------------------------------------ solver
+    def sync_solver(self, st):
+        """make the solver's assertion stack equal to st.pc, reusing the common prefix (DFS order keeps it long)"""
+        stack = self._sstack
+        pc = st.pc
+        n = min(len(stack), len(pc))
+        i = 0
+        while i < n and stack[i] is pc[i]:
+            i += 1
+        if i < len(stack):
+            self.solver.pop(len(stack) - i)
+            del stack[i:]
+        for c in pc[i:]:
+            self.solver.push()
+            self.solver.add(c)
+            stack.append(c)
+
     def check(self, st, extra=None):
         """returns 'sat' | 'unsat' | 'unknown' for pc /\\ extra"""
         t0 = time.time()
-        self.solver.push()
-        try:
-            for c in st.pc:
-                self.solver.add(c)
-            if extra is not None and extra is not True:
-                self.solver.add(extra)
+        self.sync_solver(st)
+        if extra is not None and extra is not True:
+            self.solver.push()
+            self.solver.add(extra)
             r = self.solver.check()
-        finally:
-            self.stats.queries += 1
+            self._last_model = self.solver.model() if r == z3.sat else None
+            self.solver.pop()
+        else:
+            r = self.solver.check()
+            self._last_model = self.solver.model() if r == z3.sat else None
+        self.stats.queries += 1
         dt = time.time() - t0
         self.stats.solver_time += dt
         res = str(r)
         if res == "unknown":
             self.stats.unknown += 1
-        self._last_model = self.solver.model() if res == "sat" else None
-        self.solver.pop()
         return res
 
     def model_for(self, st, extra=None):
         """find a model of pc/\\extra, preferring small values for nondet ints"""
         ints = [e["sym"] for e in st.tape if e["kind"] in ("int",) and is_sym(e["sym"])]
         lens = [e["n"] for e in st.tape if e["kind"] == "bytes" and is_sym(e["n"])]
+        self.sync_solver(st)
         for bound in self.small_model_bounds + (None,):
             self.solver.push()
-            for c in st.pc:
-                self.solver.add(c)
             if extra is not None and extra is not True:
                 self.solver.add(extra)
             if bound is not None:
@@ -439,6 +481,8 @@ class Executor:
     def store(self, st, ptr, val):
         if ptr is None:
             raise self.panic(st, "nil dereference")
+        if ptr.obj in st.ghost.get("bs_released", ()):
+            raise GoPanic("write to pooled memory after it was returned with byteslice.Put")
         st.heap[ptr.obj] = self.tree_set(st.heap[ptr.obj], ptr.path, val)
 
     def sym_positions(self, st, ptr):
@@ -573,11 +617,17 @@ class Executor:
         return st
 
     def explore(self, st0, init_mode=False):
-        """DFS over paths from st0. Returns list of final states when init_mode, else records results."""
+        """DFS over paths from st0. Returns list of final states when init_mode, else records results.
+        Sub-trees are handed to forked child processes while CPU slots are free."""
         work = [st0]
         finals = []
+        children = []
         base_depth = len(st0.frames) - 1 if init_mode else 0
+        par = (not init_mode) and self.slots is not None
         while work:
+            if par and len(work) >= 2:
+                while len(work) >= 2 and self.acquire_slot():
+                    children.append(self.spawn(work.pop(0)))
             st = work.pop()
             if self.stats.paths > self.path_limit:
                 self.inconclusive.append("path limit exceeded")
@@ -598,7 +648,76 @@ class Executor:
                 work.extend(reversed(succ))
             if self.stop_on_first and self.violations:
                 break
+        for pid, path in children:
+            self.collect(pid, path)
         return finals
+
+    slots = None      # multiprocessing.Value shared by all workers (number of busy processes)
+    max_procs = 16
+
+    def acquire_slot(self):
+        with self.slots.get_lock():
+            if self.slots.value < self.max_procs:
+                self.slots.value += 1
+                return True
+        return False
+
+    def release_slot(self):
+        with self.slots.get_lock():
+            self.slots.value -= 1
+
+    def spawn(self, st):
+        import os
+        import tempfile
+        fd, path = tempfile.mkstemp(prefix="symgo_child_", suffix=".json", dir=self.cfg.get("tmpdir"))
+        os.close(fd)
+        pid = os.fork()
+        if pid != 0:
+            return (pid, path)
+        # ---- child
+        code = 0
+        try:
+            self.stats = Stats()
+            self.violations = []
+            self.inconclusive = []
+            self.explore(st)
+            out = {"stats": self.stats.to_dict(), "violations": [v.asdict() for v in self.violations], "inconclusive": self.inconclusive}
+            with open(path, "w") as f:
+                json.dump(out, f, default=str)
+        except BaseException as e:  # noqa
+            import traceback
+            try:
+                with open(path, "w") as f:
+                    json.dump({"error": "%s: %s\n%s" % (type(e).__name__, e, traceback.format_exc())}, f)
+            except Exception:
+                pass
+            code = 1
+        finally:
+            try:
+                self.release_slot()
+            finally:
+                os._exit(code)
+
+    def collect(self, pid, path):
+        import os
+        os.waitpid(pid, 0)
+        try:
+            d = json.load(open(path))
+        except Exception as e:
+            self.inconclusive.append("child process produced no result: %s" % e)
+            return
+        finally:
+            try:
+                os.unlink(path)
+            except OSError:
+                pass
+        if "error" in d:
+            self.inconclusive.append("child process error: " + d["error"][:2000])
+            return
+        self.stats.merge(d["stats"])
+        for v in d["violations"]:
+            self.violations.append(Violation(v["kind"], v["label"], v["pos"], v["tape"], v.get("detail", "")))
+        self.inconclusive.extend(d["inconclusive"])
 
     def on_path_end(self, st):
         if len(self.stats.samples) < 3 and st.nbranch > 0:
@@ -643,7 +762,7 @@ class Executor:
         self.violations.append(Violation("panic", gp.what, where, tape, detail="; ".join(st.events[-6:])))
         raise PathEnd()
 
-    def fork(self, st, alts, apply):
+    def fork(self, st, alts, apply, complementary=False):
         """alts: list of (cond, payload). Returns successor states (feasible ones)."""
         out = []
         live = []
@@ -656,10 +775,15 @@ class Executor:
             apply(st, live[0][1])
             return None
         n = 0
-        for cond, payload in live:
+        nunsat = 0
+        for idx, (cond, payload) in enumerate(live):
             if cond is not True:
-                r = self.check(st, cond)
+                if complementary and idx == len(live) - 1 and nunsat == len(live) - 1:
+                    r = "sat"   # pc is satisfiable and every other alternative is infeasible
+                else:
+                    r = self.check(st, cond)
                 if r == "unsat":
+                    nunsat += 1
                     continue
             s2 = st.clone()
             if cond is not True:
@@ -751,7 +875,7 @@ class Executor:
 
         def app(s2, tgt):
             self.goto(s2, s2.frames[-1], tgt)
-        return self.fork(st, [(c, succs[0]), (z3.Not(c), succs[1])], app)
+        return self.fork(st, [(c, succs[0]), (z3.Not(c), succs[1])], app, complementary=True)
 
     def i_Return(self, st, fr, ins):
         vals = [self.val(st, fr, r) for r in ins["results"]]
